@@ -26,6 +26,9 @@ def _blocks():
     B['s2d@4'] = [(sp(4) + '>>> for i in range(2):', 'prompt'), (sp(4) + '...     print(i)', 'cont')]
     B['s2dt@4'] = [(sp(4) + '>>> for i in range(2):', 'prompt'), (sp(4) + '...     print(i)', 'cont'),
                    (sp(4) + '...', 'bare')]
+    # a statement left open on its prompt line (bracket / triple quote) and completed by '...' lines
+    B['s2u@4'] = [(sp(4) + '>>> print(1,', 'prompt'), (sp(4) + '...       2)', 'cont')]
+    B['sstrd@4'] = [(sp(4) + ">>> s = '''a", 'prompt'), (sp(4) + "... b'''", 'cont')]
     B['sstr@4'] = [(sp(4) + ">>> s = '''", 'prompt'), (sp(4) + '    inner', 'inner'), (sp(4) + "    '''", 'inner')]
     B['w1@4'] = [(sp(4) + 'out1', 'other')]
     B['w2@4'] = [(sp(4) + 'out1', 'other'), (sp(4) + '  out2', 'other')]
@@ -38,7 +41,7 @@ def _blocks():
 
 BLOCKS = _blocks()
 NAMES = ['s1@4', 'w1@4', 'blank', 'prose@4', 'prose@0', 'prose@8', 'tag@4', 's1@0', 's1@8', 's2@4', 's2d@4',
-         's2dt@4', 'sstr@4', 'w2@4', 'w1@8', 'wdots@4', 'tabs1', 'tabw']
+         's2dt@4', 'sstr@4', 'w2@4', 'w1@8', 'wdots@4', 'tabs1', 'tabw', 's2u@4', 'sstrd@4']
 assert set(NAMES) == set(BLOCKS)
 DEFAULT = {'s1@4', 'w1@4', 'blank', 'prose@4'}
 
